@@ -34,6 +34,59 @@ type recipe struct {
 	p1, p2 int64
 }
 
+// Every exchange opens a client socket on an ephemeral port of the one client address
+// all workers share.  A peer that is still sending the rest of a script to a port whose
+// socket is already closed reaches whatever socket is bound to that port next - possibly
+// the socket of a later exchange (of any worker), which then sees a datagram that is not
+// in its script.  The registry records, per exchange, the client port and the interval in
+// which the peer may have been sending to it; a history with an exchange whose port was
+// in such use by another exchange since its socket can have been bound is not reported.
+type portRec struct {
+	port     uint16
+	from, to time.Time // to.IsZero(): still sending
+	rq       *reqRec
+}
+
+var portReg struct {
+	mu   sync.Mutex
+	recs []*portRec
+}
+
+func portBegin(rq *reqRec) *portRec {
+	r := &portRec{port: rq.addr.Port(), from: rq.arrival, rq: rq}
+	portReg.mu.Lock()
+	// forget what ended more than a minute ago
+	k := 0
+	for _, x := range portReg.recs {
+		if x.to.IsZero() || time.Since(x.to) < time.Minute {
+			portReg.recs[k] = x
+			k++
+		}
+	}
+	portReg.recs = append(portReg.recs[:k], r)
+	portReg.mu.Unlock()
+	return r
+}
+
+func (r *portRec) end() {
+	portReg.mu.Lock()
+	r.to = time.Now()
+	portReg.mu.Unlock()
+}
+
+// portShared: another exchange's peer may have sent to the client port of rq while the
+// client socket of rq existed
+func portShared(rq *reqRec) bool {
+	portReg.mu.Lock()
+	defer portReg.mu.Unlock()
+	for _, x := range portReg.recs {
+		if x.rq != rq && x.port == rq.addr.Port() && x.from.Before(rq.arrival) && (x.to.IsZero() || x.to.After(rq.bindLower)) {
+			return true
+		}
+	}
+	return false
+}
+
 type aeadEntry struct {
 	key, nonce, ad, ct []byte
 	ok                 bool
@@ -69,6 +122,7 @@ type reqRec struct {
 	other       netip.Addr // the scripted peer's other address
 	port        int        // the port the request was sent to (SCION: its UDP destination port)
 	late        bool       // the clock of the client jumped past the deadline when the request arrived
+	bindLower   time.Time  // the client socket of this exchange was bound after this instant (arrival of the worker's previous request)
 }
 
 type worker struct {
@@ -80,10 +134,11 @@ type worker struct {
 	connS        *net.UDPConn // SCION underlay socket of the scripted peer
 	keLn         net.Listener
 	kePort       int
-	keAnnounce   int  // != 0: the port the key exchange names (SCION histories: the underlay socket of the peer)
-	keTarget     int  // 0: the key exchange names the peer's first address, 1: its second address
-	keCookies    int  // number of cookies a key exchange delivers (0: eight)
-	lateMode     bool // requests make the client's clock jump past the deadline
+	keAnnounce   int       // != 0: the port the key exchange names (SCION histories: the underlay socket of the peer)
+	keTarget     int       // 0: the key exchange names the peer's first address, 1: its second address
+	keCookies    int       // number of cookies a key exchange delivers (0: eight)
+	lateMode     bool      // requests make the client's clock jump past the deadline
+	prevArrival  time.Time // arrival of the previous request at any socket of this peer
 
 	mu       sync.Mutex
 	s2c, c2s []byte
@@ -751,7 +806,9 @@ func (w *worker) udpLoop(me, otherConn *net.UDPConn, server, other netip.Addr) {
 			rq.org, rq.rx, rq.tx = p.OriginTime, p.ReceiveTime, p.TransmitTime
 		}
 		rq.uid, _, _, _, _, _ = walk(raw)
+		pr := portBegin(rq)
 		w.mu.Lock()
+		rq.bindLower, w.prevArrival = w.prevArrival, arrival
 		if w.lateMode {
 			// from now on the client's clock reads an hour later: every retry decision of this exchange finds the deadline passed
 			theClock.jump.Store(int64(time.Hour))
@@ -807,6 +864,7 @@ func (w *worker) udpLoop(me, otherConn *net.UDPConn, server, other netip.Addr) {
 			}
 			_, _ = c.WriteToUDPAddrPort(d.payload, addr)
 		}
+		pr.end()
 		w.mu.Lock()
 		if genuine != nil {
 			w.prevPkt = genuine
